@@ -53,6 +53,14 @@ CHECKS = {
    technique="TLA+ model of the version handshake (Negotiate.tla) checked exhaustively on a scaled instance; decisions NegServer / NegClient evaluated by TLC at the real parameters and compared with the real ServeConn and CSession, followed by maximal-size traffic with every frame tapped",
    text="TLC checks for all offers 0..63 against a server maximum of 40 that the server never answers more than proposed or than its maximum, the client never adopts more than it proposed, both agree against an honest peer and nothing is dispatched before acceptance. At the real parameters TLC computes the expected answer / adopted msize for a boundary-dense list; the harness negotiates with the real server (every first-message kind, 4 version strings) and the real client, then checks exact-msize frames are accepted, msize+1 refused, read counts lowered, 1 MiB writes leave as exactly msize, and no tapped frame exceeds the agreed msize.",
    note="Trusted: Negotiate.tla; frame tap on the in-memory connection. The man-in-the-middle variant (both real ends at small msize) is not built; small msizes are reached on each side separately."),
+ "C05": dict(engine="client", cat="model_checking", ref="5 C05",
+   technique="TLA+ implementation-shaped model of the client transport incl. a literal allocateTag over a tiny tag space (ClientImpl.tla) checked by TLC; TLC behaviours replayed as caller/peer schedules on the real CSession; recorded traces validated by TLC against ClientTrace.tla; true-width tag wrap scenario",
+   text="TLC explores every interleaving of 3-4 calls, the handle loop, the reader and a peer answering in any order (tag space of 2-3 tags, so wrap-around, skipping of in-use tags and pool depletion are reached) and checks: a call is handed only the answer to its own request, tags awaiting a reply (incl. abandoned calls) are distinct and never NOTAG. On the real code the peer is scripted: all 24 reply orders of 4 concurrent callers, simulation schedules with abandoned calls, and >65535 sequential calls with 3 calls parked across the wrap; each call carries its id in the fid and each reply names the request it answers, so cross-delivery is visible; TLC validates every recorded trace.",
+   note="Trusted: ClientTrace.tla, the scripted peer, event stamping under one mutex. Data-race freedom: not decided by the spec; the race-detector run is part of the thorough tier of C14/C09 only."),
+ "C12": dict(engine="client", cat="model_checking", ref="5 C12",
+   technique="ClientImpl.tla with connection failure, session cancel, per-call cancel and a misbehaving peer (unsolicited, repeated-tag, wrong-typed replies) checked by TLC (safety + liveness 'down ~> all calls return'); fault schedules replayed on the real CSession in-process with crash detection; traces validated by TLC",
+   text="TLC checks that no peer behaviour reaches a crashed state (the as-is model with FixUnknown=FALSE must reach it: vacuity guard) and that once the connection is down every started and later call returns. Schedules from TLC (incl. the as-is counterexample) run against the real client with 6 fault kinds (peer close, read error, impossible length prefix, undecodable frame, stream cut mid-frame, session context cancel), unsolicited / repeated-tag / wrong-typed replies and per-call cancels; a harness crash with a p9p stack is a violation, a call not returning within 5 s is a violation with the goroutine dump, and TLC validates the traces (wrong-typed reply => error, ctx error only after cancel, no spurious failures).",
+   note="Trusted: as C05. Each batch runs in one process: the first crash ends the batch (the crash is the verdict). Write-deadline scenarios (peer stops reading) are not exercised."),
 }
 
 NA_REASON = "check not built yet in this round; planned per DESIGN.md section 5 (specification exists or is planned, no verdict is claimed)"
